@@ -271,6 +271,16 @@ func checkCanonical1(run *core.Run, m *openfgav1.AuthorizationModel, r *rand.Ran
 	}
 	if err != nil {
 		run.Count("models_not_renderable", 1)
+		// a model that cannot be rendered: WHICH error is returned is as much a function of the model's content as
+		// the text would be (several faults: the first one in the documented order, every time)
+		for k := 0; k < repeats+3; k++ {
+			_, e := transformer.TransformJSONProtoToDSL(clone())
+			run.Eval(1)
+			if e == nil || e.Error() != err.Error() {
+				run.Violation("error-differs-between-calls", c, err.Error(), fmt.Sprint(e))
+				return
+			}
+		}
 		return
 	}
 	// 1. repeated calls
@@ -555,6 +565,40 @@ func runC14(run *core.Run) {
 			run.Note("K4 witness missing: %v", err)
 		}
 	}
+	// models with SEVERAL independent faults of one kind (mismatching condition names, container parameters without
+	// element type, inexpressible relations): the error must be the same on every call
+	nf := run.N(300, 6000)
+	core.Parallel(nf, func(i int) {
+		r := run.Rng("c14-faulty", i)
+		m := c14Model(r)
+		intP := map[string]*openfgav1.ConditionParamTypeRef{"x": {TypeName: openfgav1.ConditionParamTypeRef_TYPE_NAME_INT}}
+		if m.Conditions == nil {
+			m.Conditions = map[string]*openfgav1.Condition{}
+		}
+		switch i % 3 {
+		case 0:
+			for k := 0; k < 2+r.Intn(4); k++ {
+				m.Conditions[fmt.Sprintf("key_%c%d", 'a'+rune(r.Intn(26)), k)] = &openfgav1.Condition{Name: fmt.Sprintf("other_%d", k), Expression: "x < 1", Parameters: intP}
+			}
+		case 1:
+			ps := map[string]*openfgav1.ConditionParamTypeRef{}
+			for k := 0; k < 2+r.Intn(4); k++ {
+				ps[fmt.Sprintf("p_%c%d", 'a'+rune(r.Intn(26)), k)] = &openfgav1.ConditionParamTypeRef{TypeName: openfgav1.ConditionParamTypeRef_TYPE_NAME_LIST}
+			}
+			m.Conditions["faulty"] = &openfgav1.Condition{Name: "faulty", Expression: "x", Parameters: ps}
+			m.Conditions["faulty2"] = &openfgav1.Condition{Name: "faulty2", Expression: "x", Parameters: ps}
+		case 2:
+			td := &openfgav1.TypeDefinition{Type: "faulty", Relations: map[string]*openfgav1.Userset{}, Metadata: &openfgav1.Metadata{Relations: map[string]*openfgav1.RelationMetadata{}}}
+			for k := 0; k < 2+r.Intn(4); k++ {
+				rn := fmt.Sprintf("bad_%c%d", 'a'+rune(r.Intn(26)), k)
+				td.Relations[rn] = gen.Union(gen.Computed("x"), gen.Inter(gen.Computed("y"), gen.This()))
+				td.Metadata.Relations[rn] = &openfgav1.RelationMetadata{DirectlyRelatedUserTypes: []*openfgav1.RelationReference{{Type: "user"}}}
+			}
+			m.TypeDefinitions = append(m.TypeDefinitions, td)
+		}
+		checkCanonical(run, m, r, run.N(3, 6))
+		run.Count("models_with_several_faults", 1)
+	})
 	n := run.N(15000, 400000)
 	core.Parallel(n, func(i int) {
 		r := run.Rng("c14", i)
